@@ -35,9 +35,10 @@ class Untranslatable(Exception):
 ARG_KINDS = {
     "x": "V", "y": "V", "u": "V", "v": "V", "data1": "V", "data2": "V", "sigma": "V", "w": "V",
     "vinv": "M", "p": "S", "z": "S", "a": "S", "b": "S",
-    "ind1": "NV", "ind2": "NV", "n_features": "N",
+    "ind1": "NV", "ind2": "NV", "n_features": "N", "ar1": "NV", "ar2": "NV", "arr": "NV", "vec": "V",
 }
-LEAN_TYPES = {"S": "α", "V": "List α", "M": "List (List α)", "B": "Bool", "N": "Nat", "Z": "Int", "NV": "List Nat"}
+LEAN_TYPES = {"S": "α", "V": "List α", "M": "List (List α)", "B": "Bool", "N": "Nat", "Z": "Int", "NV": "List Nat",
+              "BV": "List Bool"}
 
 FN_ARG_KINDS = {
     "approx_log_Gamma": {"x": "S"}, "log_beta": {"x": "S", "y": "S"}, "log_single_beta": {"x": "S"},
@@ -80,8 +81,9 @@ class Fn:
         if kind == "N" and to == "S":
             return f"(({code} : Nat) : α)"
         if kind == "Z" and to == "S":
-            self.uses_T = True
-            return f"(T.ofInt {code})"
+            return f"(({code} : Int) : α)"
+        if kind == "N" and to == "Z":
+            return f"(({code} : Nat) : Int)"
         if kind == "B" and to == "S":
             return f"(b2s {code})"
         if kind == "Z" and to == "N":
@@ -131,7 +133,8 @@ class Fn:
             op = " && " if isinstance(e.op, ast.And) else " || "
             return "(" + op.join(self.as_bool(v, env) for v in e.values) + ")", "B"
         if isinstance(e, ast.Compare):
-            return self.compare(e, env), "B"
+            c = self.compare(e, env)
+            return c, ("BV" if c.startswith("(List.zipWith") else "B")
         if isinstance(e, ast.Call):
             return self.call(e, env, want)
         if isinstance(e, ast.Tuple):
@@ -159,6 +162,39 @@ class Fn:
         if (isinstance(e.value, ast.Attribute) and e.value.attr == "shape" and isinstance(e.value.value, ast.Name)
                 and isinstance(e.slice, ast.Constant) and e.slice.value == 0):
             return f"{lname(e.value.value.id)}.length", "N"
+        if (isinstance(e.value, ast.Attribute) and e.value.attr == "shape"
+                and isinstance(e.slice, ast.Constant) and e.slice.value == 0):
+            c, k = self.expr(e.value.value, env)
+            if k in ("V", "NV", "BV"):
+                return f"({c}).length", "N"
+        # slices a[:n], a[1:], a[:-1]
+        if isinstance(e.slice, ast.Slice) and e.slice.step is None:
+            c, k = self.expr(e.value, env)
+            if k in ("V", "NV", "BV"):
+                lo, hi = e.slice.lower, e.slice.upper
+                if lo is None and hi is not None:
+                    if isinstance(hi, ast.UnaryOp) and isinstance(hi.op, ast.USub) and isinstance(hi.operand, ast.Constant) and hi.operand.value == 1:
+                        return f"({c}).dropLast", k
+                    h, kh = self.expr(hi, env, "N")
+                    if kh == "N":
+                        return f"(({c}).take {h})", k
+                if hi is None and isinstance(lo, ast.Constant) and isinstance(lo.value, int) and lo.value >= 0:
+                    return f"(({c}).drop {lo.value})", k
+            raise Untranslatable("slice " + src)
+        # component of a returned tuple: f(...)[0]
+        if isinstance(e.slice, ast.Constant) and isinstance(e.slice.value, int) and not isinstance(e.value, ast.Name):
+            c, k = self.expr(e.value, env)
+            if isinstance(k, tuple) and len(k) == 2 and e.slice.value in (0, 1):
+                return f"({c}).{e.slice.value + 1}", k[e.slice.value]
+        # boolean mask
+        if isinstance(e.value, (ast.Name, ast.Subscript)) and not isinstance(e.slice, (ast.Constant, ast.Tuple)):
+            c, k = self.expr(e.value, env)
+            try:
+                m, km = self.expr(e.slice, env)
+            except Untranslatable:
+                m, km = None, None
+            if km == "BV" and k in ("V", "NV"):
+                return f"(maskSel {c} {m})", k
         if isinstance(e.value, ast.Name):
             base, k = self.expr(e.value, env)
             if k == "V":
@@ -192,20 +228,30 @@ class Fn:
         op = ops[type(e.op)]
         # literals take the kind of the other operand; division is always scalar
         lw = rw = "S" if isinstance(e.op, ast.Div) else want
+        def lit_kind(c, other):
+            # a float literal makes the arithmetic floating point; an int literal takes the other operand's kind
+            if isinstance(c.value, float) or other in ("S", "V", "B") or isinstance(e.op, ast.Div):
+                return "S"
+            return "N"
         if isinstance(e.left, ast.Constant) and not isinstance(e.right, ast.Constant):
             b, kb = self.expr(e.right, env, rw)
-            a, ka = self.expr(e.left, env, "S" if (kb in ("S", "V", "B") or isinstance(e.op, ast.Div)) else "N")
+            a, ka = self.expr(e.left, env, lit_kind(e.left, kb))
         else:
             a, ka = self.expr(e.left, env, lw)
-            b, kb = self.expr(e.right, env, "S" if (ka in ("S", "V", "B") or isinstance(e.op, ast.Div)) else "N")
+            b, kb = self.expr(e.right, env, lit_kind(e.right, ka) if isinstance(e.right, ast.Constant) else
+                              ("S" if (ka in ("S", "V", "B") or isinstance(e.op, ast.Div)) else "N"))
         if ka == "V" and kb == "V":
             return f"(List.zipWith (fun a b => a {op} b) {a} {b})", "V"
         if ka == "V":
             return f"(({a}).map (fun a => a {op} {self.cast(b, kb, 'S')}))", "V"
         if kb == "V":
             return f"(({b}).map (fun b => {self.cast(a, ka, 'S')} {op} b))", "V"
+        if ka == "N" and kb == "N" and isinstance(e.op, ast.Sub):
+            return f"((({a} : Nat) : Int) - (({b} : Nat) : Int))", "Z"      # Python ints do not truncate
         if ka == "N" and kb == "N" and not isinstance(e.op, ast.Div):
             return f"({a} {op} {b})", "N"
+        if {ka, kb} <= {"N", "Z"} and not isinstance(e.op, ast.Div):
+            return f"({self.cast(a, ka, 'Z')} {op} {self.cast(b, kb, 'Z')})", "Z"
         return f"({self.cast(a, ka, 'S')} {op} {self.cast(b, kb, 'S')})", "S"
 
     def compare(self, e, env):
@@ -214,14 +260,28 @@ class Fn:
             raise Untranslatable("chained comparison")
         op = e.ops[0]
         l, r = e.left, e.comparators[0]
+        def intlit(c):
+            return isinstance(c, ast.Constant) and not isinstance(c.value, bool) and float(c.value) == int(c.value) and c.value >= 0
         if isinstance(l, ast.Constant) and not isinstance(r, ast.Constant):
             b, kb = self.expr(r, env)
-            a, ka = self.expr(l, env, "N" if kb in ("N",) else "S")
+            a, ka = (str(int(l.value)), "N") if (kb in ("N", "Z") and intlit(l)) else self.expr(l, env, "S")
         else:
             a, ka = self.expr(l, env)
-            b, kb = self.expr(r, env, "N" if ka in ("N",) else "S")
+            if isinstance(r, ast.Constant) and ka in ("N", "Z") and intlit(r):
+                b, kb = str(int(r.value)), "N"
+            else:
+                b, kb = self.expr(r, env, "N" if ka in ("N",) else "S")
+        if isinstance(op, (ast.In, ast.NotIn)) and kb == "NV" and ka == "N":
+            return f"(({b}).contains {a})" if isinstance(op, ast.In) else f"(!(({b}).contains {a}))"
+        if ka == "NV" and kb == "NV" and isinstance(op, (ast.Eq, ast.NotEq)):
+            t = "==" if isinstance(op, ast.Eq) else "!="
+            return f"(List.zipWith (fun a b => a {t} b) {a} {b})"       # kind BV: see `expr`
         if ka == "V" or kb == "V":
             raise Untranslatable("vector comparison outside np.sum")
+        if {ka, kb} <= {"N", "Z"} and "Z" in (ka, kb):
+            a, b = self.cast(a, ka, "Z"), self.cast(b, kb, "Z")
+            t = {ast.Eq: "==", ast.NotEq: "!=", ast.Lt: "<", ast.LtE: "≤", ast.Gt: ">", ast.GtE: "≥"}[type(op)]
+            return f"({a} {t} {b})" if t in ("==", "!=") else f"(decide ({a} {t} {b}))"
         if ka == "B" and kb == "B":
             if isinstance(op, ast.NotEq):
                 return f"(xor {a} {b})"
@@ -334,6 +394,30 @@ class Fn:
         if f == "np.array" and len(args) == 1 and isinstance(args[0], ast.List):
             parts = [self.expr(x, env, "S") for x in args[0].elts]
             return "[" + ", ".join(self.cast(c, k, "S") for c, k in parts) + "]", "V"
+        if f == "np.concatenate" and len(args) == 1 and isinstance(args[0], ast.Tuple) and len(args[0].elts) == 2:
+            a, ka = self.expr(args[0].elts[0], env)
+            b, kb = self.expr(args[0].elts[1], env)
+            if ka == kb and ka in ("V", "NV", "BV"):
+                return f"({a} ++ {b})", ka
+            raise Untranslatable("concatenate of different kinds")
+        if f == "np.sort" and len(args) == 1:
+            a, k = self.expr(args[0], env)
+            if k == "NV":
+                return f"(sortN {a})", "NV"
+            raise Untranslatable("np.sort of a non-index array")
+        if f == "np.ones" and len(args) >= 1 and isinstance(args[0], ast.Constant) and any(
+                kw.arg == "dtype" and ast.unparse(kw.value) in ("np.bool_", "bool") for kw in e.keywords):
+            return f"(List.replicate {int(args[0].value)} true)", "BV"
+        if f == "np.all" and len(args) == 1:
+            a, k = self.expr(args[0], env)
+            if k == "BV":
+                return f"(({a}).all id)", "B"
+            raise Untranslatable("np.all of a non-boolean array")
+        if f == "set" and len(args) == 1:
+            a, k = self.expr(args[0], env)
+            if k == "NV":
+                return a, "NV"
+            raise Untranslatable("set of a non-index array")
         if f == "sign" and len(args) == 1:
             a, k = self.expr(args[0], env, "S")
             return f"(signPM {self.cast(a, k, 'S')})", "S"
@@ -447,6 +531,20 @@ class Fn:
                 c, k = self.expr(s.value, env, "S")
                 a = lname(t.value.id)
                 return pad + f"let {a} := {a}.set {self.cast(i, ki, 'N')} {self.cast(c, k, 'S')}\n" + self.block(rest, env, ind, tail)
+            if isinstance(t, ast.Subscript) and isinstance(t.value, ast.Name) and env.get(t.value.id) == "NV":
+                i, ki = self.expr(t.slice, env, "N")
+                c, k = self.expr(s.value, env, "N")
+                a = lname(t.value.id)
+                return pad + f"let {a} := {a}.set {self.cast(i, ki, 'N')} {self.cast(c, k, 'N')}\n" + self.block(rest, env, ind, tail)
+            if isinstance(t, ast.Tuple) and all(isinstance(x, ast.Name) for x in t.elts):
+                c, k = self.expr(s.value, env)
+                if not (isinstance(k, tuple) and len(k) == len(t.elts)):
+                    raise Untranslatable("tuple assignment from a non-tuple")
+                env2 = dict(env)
+                for x, kx in zip(t.elts, k):
+                    env2[x.id] = kx
+                names = ", ".join(lname(x.id) for x in t.elts)
+                return pad + f"let ({names}) := {c}\n" + self.block(rest, env2, ind, tail)
             raise Untranslatable("assignment target " + ast.unparse(t))
         if isinstance(s, ast.AugAssign):
             ops = {ast.Add: "+", ast.Sub: "-", ast.Mult: "*", ast.Div: "/"}
@@ -471,8 +569,15 @@ class Fn:
                 a = lname(t.value.id)
                 return pad + f"let {a} := {a}.set {i} (({a}.getD {i} 0) {op} {self.cast(c, k, 'S')})\n" + self.block(rest, env, ind, tail)
             raise Untranslatable("augmented target")
+        if isinstance(s, ast.Expr) and isinstance(s.value, ast.Call) and ast.unparse(s.value.func).endswith(".sort") \
+                and isinstance(s.value.func, ast.Attribute) and isinstance(s.value.func.value, ast.Name) \
+                and env.get(s.value.func.value.id) == "NV" and not s.value.args:
+            a = lname(s.value.func.value.id)
+            return pad + f"let {a} := sortN {a}\n" + self.block(rest, env, ind, tail)
         if isinstance(s, ast.For):
             return self.loop(s, rest, env, ind, tail)
+        if isinstance(s, ast.While):
+            return self.whileloop(s, rest, env, ind, tail)
         if isinstance(s, ast.If):
             return self.ifstmt(s, rest, env, ind, tail)
         raise Untranslatable("statement " + type(s).__name__)
@@ -491,8 +596,55 @@ class Fn:
     def index_like(e):
         return isinstance(e, ast.Name) or (isinstance(e, ast.Constant) and isinstance(e.value, int))
 
+    def whileloop(self, s, rest, env, ind, tail):
+        """`while c: body` -> `whileN fuel (fun st => c) (fun st => body) st0`; the fuel is the sum of the lengths the
+        condition compares its counters with, plus one (each iteration of the merge loops advances a counter)"""
+        pad = "  " * ind
+        if s.orelse:
+            raise Untranslatable("while / else")
+        for n_ in ast.walk(s):
+            if isinstance(n_, (ast.Return, ast.Raise, ast.Break, ast.Continue)):
+                raise Untranslatable("control transfer inside a loop")
+        lens = []
+        for n_ in ast.walk(s.test):
+            if isinstance(n_, ast.Subscript) and isinstance(n_.value, ast.Attribute) and n_.value.attr == "shape" \
+                    and isinstance(n_.value.value, ast.Name):
+                lens.append(f"{lname(n_.value.value.id)}.length")
+        if not lens:
+            raise Untranslatable("while loop without a length bound in its condition")
+        fuel = "(" + " + ".join(lens) + " + 1)"
+        state = [v for v in self.assigned(s.body) if v in env]
+        if not state:
+            raise Untranslatable("loop without state")
+        n = len(state)
+        ty = self.tuple_type(state, env)
+        unpack = "".join("  " * (ind + 2) + f"let {lname(v)} := {self.proj(j, n)}\n" for j, v in enumerate(state))
+        cond = self.as_bool(s.test, env)
+        body = self.block(s.body, dict(env), ind + 2, tail=lambda e_: self.tuple_of(state, e_))
+        out = pad + f"let {self.tuple_of(state, env) if n > 1 else lname(state[0])} := whileN {fuel}\n"
+        out += pad + f"    (fun (st : {ty}) =>\n" + unpack + "  " * (ind + 2) + cond + ")\n"
+        out += pad + f"    (fun (st : {ty}) =>\n" + unpack + body + ")\n"
+        out += pad + "    " + self.tuple_of(state, env) + "\n"
+        return out + self.block(rest, env, ind, tail)
+
     def loop(self, s, rest, env, ind, tail):
         pad = "  " * ind
+        if isinstance(s.target, ast.Name) and isinstance(s.iter, ast.Name) and env.get(s.iter.id) in ("V", "NV") and not s.orelse:
+            # for v in data: ...  -> a fold over the list itself
+            for n_ in ast.walk(s):
+                if isinstance(n_, (ast.Return, ast.Raise, ast.Break, ast.Continue)):
+                    raise Untranslatable("control transfer inside a loop")
+            state = [v for v in self.assigned(s.body) if v in env]
+            if not state:
+                raise Untranslatable("loop without state")
+            ek = "S" if env[s.iter.id] == "V" else "N"
+            env_in = dict(env)
+            env_in[s.target.id] = ek
+            n = len(state)
+            hdr = pad + f"let {self.tuple_of(state, env) if n > 1 else lname(state[0])} := {lname(s.iter.id)}.foldl (fun (st : {self.tuple_type(state, env)}) ({lname(s.target.id)} : {LEAN_TYPES[ek]}) =>\n"
+            unpack = "".join("  " * (ind + 2) + f"let {lname(v)} := {self.proj(j, n)}\n" for j, v in enumerate(state))
+            body = self.block(s.body, env_in, ind + 2, tail=lambda e_: self.tuple_of(state, e_))
+            return hdr + unpack + body + ") " + self.tuple_of(state, env) + "\n" + self.block(rest, env, ind, tail)
         if not (isinstance(s.target, ast.Name) and isinstance(s.iter, ast.Call) and ast.unparse(s.iter.func) == "range"
                 and not s.orelse):
             raise Untranslatable("loop form")
@@ -644,12 +796,14 @@ PRELUDE = """/- GENERATED from the source text of {src} in the live /repo by har
    are about; a change to the source changes this file and that proof is re-checked. -/
 import UmapModel.Scalar
 
+set_option linter.unusedVariables false
+
 namespace Umap
 namespace {ns}
 
 section
 variable {{α : Type}} [Add α] [Sub α] [Mul α] [Div α] [Neg α] [LT α] [LE α]
-  [DecidableLT α] [DecidableLE α] [OfNat α 0] [OfNat α 1] [NatCast α]
+  [DecidableLT α] [DecidableLE α] [OfNat α 0] [OfNat α 1] [NatCast α]{extra_vars}
 
 /-- `e ** 2` -/
 def sq (a : α) : α := a * a
@@ -659,7 +813,18 @@ def cube (a : α) : α := a * a * a
 def b2s (b : Bool) : α := if b then 1 else 0
 /-- `range(lo, hi)` -/
 def rangeFrom (lo hi : Nat) : List Nat := (List.range (hi - lo)).map (lo + ·)
+{extra_defs}
+"""
 
+SPARSE_DEFS = """/-- `while c: body` with explicit fuel (the translator supplies the sum of the lengths the condition mentions + 1);
+    when the fuel runs out the current state is returned -/
+def whileN {σ : Type} : Nat → (σ → Bool) → (σ → σ) → σ → σ
+  | 0, _, _, s => s
+  | n + 1, c, f, s => if c s then whileN n c f (f s) else s
+/-- `np.sort` on an index array (contract: ascending, stable) -/
+def sortN (l : List Nat) : List Nat := l.mergeSort (fun a b => decide (a ≤ b))
+/-- boolean-mask indexing `a[flag]` (contract: the entries whose flag is set, in order) -/
+def maskSel {β : Type} (a : List β) (flag : List Bool) : List β := ((a.zip flag).filter (·.2)).map (·.1)
 """
 
 
@@ -668,11 +833,11 @@ def camel(name):
     return parts[0] + "".join(p[:1].upper() + p[1:] for p in parts[1:])
 
 
-def translate_module(source, names, src_label, ns, props):
+def translate_module(source, names, src_label, ns, props, extra_vars="", extra_defs=""):
     """returns (lean text, report) where report maps function name -> 'ok' | reason"""
     tree = ast.parse(source)
     fns = {n.name: n for n in tree.body if isinstance(n, ast.FunctionDef)}
-    out = [PRELUDE.format(src=src_label, ns=ns, props=props)]
+    out = [PRELUDE.format(src=src_label, ns=ns, props=props, extra_vars=extra_vars, extra_defs=extra_defs)]
     known, report, meta = {}, {}, {}
     for name in names:
         if name not in fns:
@@ -715,52 +880,92 @@ GRAD_FUNCS = [
 ]
 
 
-RUN_PRELUDE = """/- GENERATED by harness/translate.py — do not edit.  Dispatch table that runs the translated kernels of
-   Generated/DistSrc.lean at `Float`, used by `srcdrv` to validate the *translator* against the Python functions
-   themselves (`.py_func`) on every run. -/
-import Generated.DistSrc
+RUN_COMMON = """/- GENERATED by harness/translate.py — do not edit.  Argument / result encoding shared by the dispatch tables that run
+   the translated kernels at `Float` (srcdrv). -/
+import UmapModel.Scalar
 
 namespace Umap
 namespace SrcRun
+
+instance : IntCast Float := ⟨Float.ofInt⟩
 
 inductive Arg where
   | s : Float → Arg
   | v : List Float → Arg
   | m : List (List Float) → Arg
   | n : Nat → Arg
+  | i : List Nat → Arg
 
 def fb (x : Float) : String := toString x.toBits.toNat
 def outS (x : Float) : List String := [fb x]
 def outSV (p : Float × List Float) : List String := fb p.1 :: p.2.map fb
+def outI (l : List Nat) : List String := "idx" :: l.map toString
+def outIV (p : List Nat × List Float) : List String := ("idx" :: p.1.map toString) ++ ("val" :: p.2.map fb)
 def outO {β} (f : β → List String) : Option β → List String
   | some b => f b
   | none => ["none"]
 def piF : Float := 3.141592653589793
 
-def run (name : String) (a : List Arg) : List String :=
+end SrcRun
+end Umap
+"""
+
+RUN_PRELUDE = """/- GENERATED by harness/translate.py — do not edit.  Dispatch table that runs the translated kernels of
+   Generated/{mod}.lean at `Float`, used by `srcdrv` to validate the *translator* against the Python functions
+   themselves (`.py_func`) on every run. -/
+import Generated.RunCommon
+import Generated.{mod}
+
+namespace Umap
+namespace SrcRun
+
+def {fn} (name : String) (a : List Arg) : List String :=
   match name, a with
 """
 
 
-def run_table(known):
-    """Lean text of Generated/DistSrcRun.lean for the translated functions (`known` as built by translate_module)"""
-    out = [RUN_PRELUDE]
-    tag = {"S": "s", "V": "v", "M": "m", "N": "n"}
+def run_table(known, mod="DistSrc", ns="Src", fn="run"):
+    """Lean text of the dispatch table for the translated functions (`known` as built by translate_module)"""
+    out = [RUN_PRELUDE.format(mod=mod, fn=fn)]
+    tag = {"S": "s", "V": "v", "M": "m", "N": "n", "NV": "i"}
+    outs = {"S": "outS", ("S", "V"): "outSV", "NV": "outI", ("NV", "V"): "outIV"}
     for name, (lean, akinds, rk, usesT, usesPi, partial) in known.items():
-        if any(k not in tag for k in akinds):
+        if any(k not in tag for k in akinds) or rk not in outs:
             continue
-        if rk == "S":
-            o = "outS"
-        elif rk == ("S", "V"):
-            o = "outSV"
-        else:
-            continue
+        o = outs[rk]
         pats = ", ".join(f".{tag[k]} a{i}" for i, k in enumerate(akinds))
-        call = f"Src.{lean}" + (" floatT" if usesT else "") + (" piF" if usesPi else "") + "".join(f" a{i}" for i in range(len(akinds)))
+        call = f"{ns}.{lean}" + (" floatT" if usesT else "") + (" piF" if usesPi else "") + "".join(f" a{i}" for i in range(len(akinds)))
         res = f"outO {o} ({call})" if partial else f"{o} ({call})"
         out.append(f'  | "{name}", [{pats}] => {res}')
     out.append('  | _, _ => ["bad-op"]\n\nend SrcRun\nend Umap\n')
     return "\n".join(out)
+
+
+SPARSE_FUNCS = [
+    "norm", "arr_unique", "arr_union", "arr_intersect", "sparse_sum", "sparse_diff", "sparse_mul",
+    "sparse_euclidean", "sparse_manhattan", "sparse_chebyshev", "sparse_minkowski", "sparse_hamming", "sparse_canberra",
+    "sparse_bray_curtis", "sparse_jaccard", "sparse_matching", "sparse_dice", "sparse_kulsinski", "sparse_rogers_tanimoto",
+    "sparse_russellrao", "sparse_sokal_michener", "sparse_sokal_sneath", "sparse_cosine", "sparse_hellinger",
+    "sparse_correlation", "approx_log_Gamma", "log_beta", "log_single_beta", "sparse_ll_dirichlet",
+]
+
+
+def sparse_source():
+    import umap.sparse as S
+    import umap.utils as U
+    return inspect.getsource(U.norm.py_func) + "\n\n" + inspect.getsource(S)
+
+
+def regen_sparse_src(lean_dir, write_if_changed):
+    import os
+    text, rep = translate_module(sparse_source(), SPARSE_FUNCS, "umap/sparse.py", "SrcSparse", "C13Src*.lean",
+                                 extra_vars=" [IntCast α]", extra_defs=SPARSE_DEFS)
+    meta = rep.pop("__meta__")
+    changed = write_if_changed(os.path.join(lean_dir, "Generated", "SparseSrc.lean"), text)
+    changed |= write_if_changed(os.path.join(lean_dir, "Generated", "RunCommon.lean"), RUN_COMMON)
+    changed |= write_if_changed(os.path.join(lean_dir, "Generated", "SparseSrcRun.lean"),
+                                run_table(meta, "SparseSrc", "SrcSparse", "runSparse"))
+    return changed, rep
 
 
 def regen_dist_src(lean_dir, write_if_changed):
@@ -770,12 +975,21 @@ def regen_dist_src(lean_dir, write_if_changed):
     text, rep = translate_module(src, DIST_FUNCS + GRAD_FUNCS, "umap/distances.py", "Src", "C12Src.lean / C14Src.lean")
     meta = rep.pop("__meta__")
     changed = write_if_changed(os.path.join(lean_dir, "Generated", "DistSrc.lean"), text)
+    changed |= write_if_changed(os.path.join(lean_dir, "Generated", "RunCommon.lean"), RUN_COMMON)
     changed |= write_if_changed(os.path.join(lean_dir, "Generated", "DistSrcRun.lean"), run_table(meta))
     return changed, rep
 
 
 if __name__ == "__main__":
     import sys
+    if len(sys.argv) > 1 and sys.argv[1] == "sparse":
+        text, rep = translate_module(sparse_source(), SPARSE_FUNCS, "umap/sparse.py", "SrcSparse", "C13Src*.lean",
+                                     extra_vars=" [IntCast α]", extra_defs=SPARSE_DEFS)
+        sys.stdout.write(text)
+        rep.pop("__meta__")
+        for k, v in rep.items():
+            sys.stderr.write(f"{k}: {v}\n")
+        sys.exit(0)
     import umap.distances as D
     text, rep = translate_module(inspect.getsource(D), DIST_FUNCS + GRAD_FUNCS, "umap/distances.py", "Src", "C12Src.lean")
     sys.stdout.write(text)
